@@ -35,6 +35,7 @@ const (
 	opSleep
 	opQuiesce // enabled only when nothing else at all (not even a sleeper) can run
 	opYield // explicit choice point (MapOrder / Choose)
+	opCond  // generic guarded step: enabled iff cond(), executes act (RWMutex, Once)
 )
 
 type selCase struct {
@@ -53,6 +54,8 @@ type op struct {
 	hasDef  bool
 	dur     time.Duration
 	nChoice int // opYield: number of alternatives
+	cond    func() bool
+	act     func(t *thread)
 	label   string
 	// results
 	rval    interface{}
@@ -75,6 +78,7 @@ type thread struct {
 	resume  chan struct{}
 	pending *op
 	daemon  bool
+	ticker  bool // pseudo-thread of a Ticker
 	finished bool
 	vc      []int // vector clock (race detector)
 }
@@ -132,6 +136,7 @@ type sched struct {
 	mapOrder bool
 	alive    sync.WaitGroup
 	muIDs    map[*Mutex]int
+	atomics  map[interface{}]*atomicCell
 	final    bool
 	obsHash  uint64
 	tracing  bool
@@ -143,6 +148,7 @@ type Obs struct {
 	Val  interface{}
 	At   int // index in the trace of scheduling points
 	Thread string
+	Clock  time.Duration // virtual time of the observation
 }
 
 var s *sched
@@ -179,7 +185,7 @@ func Run(scenario func(), choices []int, opt Options) *Execution {
 		opt.MaxPoints = 5000
 	}
 	s = &sched{wake: make(chan struct{}), chans: map[uintptr]*vchan{}, prefix: choices, maxPoints: opt.MaxPoints,
-		sleepBudget: map[string]int{}, accesses: map[accessKey]*accessRec{}, muIDs: map[*Mutex]int{}}
+		sleepBudget: map[string]int{}, accesses: map[accessKey]*accessRec{}, muIDs: map[*Mutex]int{}, atomics: map[interface{}]*atomicCell{}}
 	for k, v := range opt.SleepBudget {
 		s.sleepBudget[k] = v
 	}
@@ -335,6 +341,10 @@ func (sc *sched) optionsOf(t *thread) []option {
 		if o.mu.owner == nil {
 			return []option{{t: t}}
 		}
+	case opCond:
+		if o.cond() {
+			return []option{{t: t}}
+		}
 	case opWait:
 		if o.wg.n <= 0 {
 			return []option{{t: t}}
@@ -435,6 +445,8 @@ func describe(o *op) string {
 		return fmt.Sprintf("sleep %v @%s", o.dur, o.label)
 	case opQuiesce:
 		return "wait-for-quiescence"
+	case opCond:
+		return o.label
 	case opYield:
 		return fmt.Sprintf("choose(%d) @%s", o.nChoice, o.label)
 	}
@@ -487,13 +499,20 @@ func (sc *sched) loop() {
 		}
 		var last []option  // threads waiting for global quiescence
 		var later []option // sleeping threads go last (yield semantics): a polling loop cannot monopolise the default schedule
+		var ticks []option // sleeping Ticker pseudo-threads: ticks alone never keep an execution alive
+		anyLive := false   // some thread that must finish has not finished yet
 		for _, t := range sc.threads {
+			if !t.finished && !t.daemon {
+				anyLive = true
+			}
 			if t.finished || (t == sc.cur && runningEnabled) {
 				continue
 			}
 			o := sc.optionsOf(t)
 			if t.pending != nil && t.pending.kind == opQuiesce && !t.pending.done {
 				last = append(last, o...)
+			} else if t.pending != nil && t.pending.kind == opSleep && !t.pending.done && t.ticker {
+				ticks = append(ticks, o...)
 			} else if t.pending != nil && t.pending.kind == opSleep && !t.pending.done {
 				later = append(later, o...)
 			} else {
@@ -502,12 +521,26 @@ func (sc *sched) loop() {
 		}
 		// fairness among sleepers (polling loops): least recently run first
 		sort.SliceStable(later, func(i, j int) bool { return later[i].t.lastRun < later[j].t.lastRun })
+		sort.SliceStable(ticks, func(i, j int) bool { return ticks[i].t.lastRun < ticks[j].t.lastRun })
+		// a ticker is an ordinary sleeper while there is no thread waiting for quiescence; next to such a waiter it only
+		// fires within its branching budget (a periodic tick must not postpone "nothing else can happen" for ever);
+		// once every thread that must finish has finished, tickers are ignored altogether
+		if !anyLive {
+			ticks = nil
+		} else if len(last) == 0 {
+			later = append(later, ticks...)
+			sort.SliceStable(later, func(i, j int) bool { return later[i].t.lastRun < later[j].t.lastRun })
+			ticks = nil
+		}
 		// sleeps beyond their branching budget are only taken when nothing else is enabled
-		if len(opts) > 0 {
-			for _, l := range later {
+		if len(opts) > 0 || (len(later) == 0 && len(last) > 0) {
+			for _, l := range append(append([]option{}, later...), ticks...) {
 				if sc.budget(l.t.pending.label) > 0 {
 					opts = append(opts, l)
 				}
+			}
+			if len(opts) == 0 && len(later) > 0 {
+				opts = append(opts, later[0])
 			}
 		} else if len(later) > 0 {
 			// only sleepers can run: the fair one (least recently run) is the default; another sleeper may overtake it
@@ -596,6 +629,8 @@ func (sc *sched) apply(o option) {
 		joinVC(t, p.mu.vc)
 	case opWait:
 		joinVC(t, p.wg.vc)
+	case opCond:
+		p.act(t)
 	case opSend:
 		sc.doSend(t, p, p.ch, p.val, o.partner)
 	case opRecv:
@@ -793,7 +828,7 @@ func Observe(kind string, v interface{}) {
 	if s == nil || s.aborting {
 		return
 	}
-	s.obs = append(s.obs, Obs{Kind: kind, Val: v, At: len(s.points), Thread: s.cur.label})
+	s.obs = append(s.obs, Obs{Kind: kind, Val: v, At: len(s.points), Thread: s.cur.label, Clock: s.clock})
 	s.obsHash = mix(s.obsHash, hashStr(fmt.Sprintf("%s=%v", kind, v)))
 }
 
@@ -1006,11 +1041,202 @@ func (w *WaitGroup) Wait() {
 	block(o)
 }
 
+// RWMutex: any number of readers or one writer. Writer preference of the runtime (new readers wait while a writer
+// is waiting) is not modelled: the model admits a superset of the real interleavings.
+type RWMutex struct {
+	writer  *thread
+	readers int
+	wvc     []int // released by the last writer
+	rvc     []int // released by readers
+}
+
+func (m *RWMutex) Lock() {
+	if s == nil || s.aborting {
+		return
+	}
+	block(&op{kind: opCond, label: "rwmutex-lock @" + caller(),
+		cond: func() bool { return m.writer == nil && m.readers == 0 },
+		act:  func(t *thread) { m.writer = t; joinVC(t, m.wvc); joinVC(t, m.rvc) }})
+}
+
+func (m *RWMutex) Unlock() {
+	if s == nil || s.aborting {
+		return
+	}
+	if m.writer == nil {
+		panic("sync: Unlock of unlocked RWMutex")
+	}
+	m.wvc = release(s.cur)
+	m.writer = nil
+}
+
+func (m *RWMutex) RLock() {
+	if s == nil || s.aborting {
+		return
+	}
+	block(&op{kind: opCond, label: "rwmutex-rlock @" + caller(),
+		cond: func() bool { return m.writer == nil },
+		act:  func(t *thread) { m.readers++; joinVC(t, m.wvc) }})
+}
+
+func (m *RWMutex) RUnlock() {
+	if s == nil || s.aborting {
+		return
+	}
+	if m.readers <= 0 {
+		panic("sync: RUnlock of unlocked RWMutex")
+	}
+	m.rvc = maxVC(m.rvc, release(s.cur))
+	m.readers--
+}
+
+// Once: the first caller runs f, the others wait until it has returned.
+type Once struct {
+	running bool
+	done    bool
+	vc      []int
+}
+
+func (o *Once) Do(f func()) {
+	if s == nil || s.aborting {
+		return
+	}
+	first := false
+	block(&op{kind: opCond, label: "once @" + caller(),
+		cond: func() bool { return !o.running },
+		act: func(t *thread) {
+			if o.done {
+				joinVC(t, o.vc)
+				return
+			}
+			o.running, first = true, true
+		}})
+	if first {
+		defer func() {
+			if s != nil && !s.aborting {
+				o.vc = release(s.cur)
+			}
+			o.done, o.running = true, false
+		}()
+		f()
+	}
+}
+
+// ---- sync/atomic: every operation is a scheduling point and synchronises (sequentially consistent) through the
+// clock kept per atomic variable.
+
+type atomicCell struct{ vc []int }
+
+
+func atomicPoint(addr interface{}, what string) {
+	if s == nil || s.aborting {
+		return
+	}
+	block(&op{kind: opYield, nChoice: 1, label: "atomic-" + what + " @" + caller()})
+	c := s.atomics[addr]
+	if c == nil {
+		c = &atomicCell{}
+		s.atomics[addr] = c
+	}
+	joinVC(s.cur, c.vc)
+	c.vc = maxVC(c.vc, release(s.cur))
+}
+
+type atomicNum interface {
+	~int32 | ~int64 | ~uint32 | ~uint64 | ~uintptr
+}
+
+func AtomicLoad[T atomicNum](p *T) T        { atomicPoint(p, "load"); return *p }
+func AtomicStore[T atomicNum](p *T, v T)    { atomicPoint(p, "store"); *p = v }
+func AtomicAdd[T atomicNum](p *T, d T) T    { atomicPoint(p, "add"); *p += d; return *p }
+func AtomicSwap[T atomicNum](p *T, v T) T   { atomicPoint(p, "swap"); o := *p; *p = v; return o }
+func AtomicCAS[T atomicNum](p *T, o, n T) bool {
+	atomicPoint(p, "cas")
+	if *p == o {
+		*p = n
+		return true
+	}
+	return false
+}
+
+type AtomicNum[T atomicNum] struct{ v T }
+
+func (a *AtomicNum[T]) Load() T                    { return AtomicLoad(&a.v) }
+func (a *AtomicNum[T]) Store(v T)                  { AtomicStore(&a.v, v) }
+func (a *AtomicNum[T]) Add(d T) T                  { return AtomicAdd(&a.v, d) }
+func (a *AtomicNum[T]) Swap(v T) T                 { return AtomicSwap(&a.v, v) }
+func (a *AtomicNum[T]) CompareAndSwap(o, n T) bool { return AtomicCAS(&a.v, o, n) }
+
+type AtomicInt32 = AtomicNum[int32]
+type AtomicInt64 = AtomicNum[int64]
+type AtomicUint32 = AtomicNum[uint32]
+type AtomicUint64 = AtomicNum[uint64]
+type AtomicUintptr = AtomicNum[uintptr]
+
+type AtomicBool struct{ v bool }
+
+func (a *AtomicBool) Load() bool   { atomicPoint(a, "load"); return a.v }
+func (a *AtomicBool) Store(v bool) { atomicPoint(a, "store"); a.v = v }
+func (a *AtomicBool) Swap(v bool) bool {
+	atomicPoint(a, "swap")
+	o := a.v
+	a.v = v
+	return o
+}
+func (a *AtomicBool) CompareAndSwap(o, n bool) bool {
+	atomicPoint(a, "cas")
+	if a.v == o {
+		a.v = n
+		return true
+	}
+	return false
+}
+
+type AtomicValue struct{ v interface{} }
+
+func (a *AtomicValue) Load() interface{}   { atomicPoint(a, "load"); return a.v }
+func (a *AtomicValue) Store(v interface{}) { atomicPoint(a, "store"); a.v = v }
+func (a *AtomicValue) Swap(v interface{}) interface{} {
+	atomicPoint(a, "swap")
+	o := a.v
+	a.v = v
+	return o
+}
+func (a *AtomicValue) CompareAndSwap(o, n interface{}) bool {
+	atomicPoint(a, "cas")
+	if a.v == o {
+		a.v = n
+		return true
+	}
+	return false
+}
+
+type AtomicPointer[T any] struct{ v *T }
+
+func (a *AtomicPointer[T]) Load() *T   { atomicPoint(a, "load"); return a.v }
+func (a *AtomicPointer[T]) Store(v *T) { atomicPoint(a, "store"); a.v = v }
+func (a *AtomicPointer[T]) Swap(v *T) *T {
+	atomicPoint(a, "swap")
+	o := a.v
+	a.v = v
+	return o
+}
+func (a *AtomicPointer[T]) CompareAndSwap(o, n *T) bool {
+	atomicPoint(a, "cas")
+	if a.v == o {
+		a.v = n
+		return true
+	}
+	return false
+}
+
 // ---- context (T8)
 
 type vctx struct {
-	parent context.Context
-	done   chan struct{}
+	parent   context.Context
+	done     chan struct{}
+	timedOut bool
+	children []*vctx
 }
 
 func (c *vctx) Deadline() (time.Time, bool) { return time.Time{}, false }
@@ -1023,6 +1249,9 @@ func (c *vctx) Done() <-chan struct{} {
 func (c *vctx) Err() error {
 	if c.done != nil && s != nil {
 		if vc := chanOf(c.done); vc != nil && vc.closed {
+			if c.timedOut {
+				return context.DeadlineExceeded
+			}
 			return context.Canceled
 		}
 	}
@@ -1036,16 +1265,31 @@ func WithCancel(parent context.Context) (context.Context, context.CancelFunc) {
 	c := &vctx{parent: parent, done: make(chan struct{})}
 	if s != nil && !s.aborting {
 		Name(c.done, "ctx.Done")
+		if p, ok := parent.(*vctx); ok && p.done != nil {
+			p.children = append(p.children, c)
+			if vc := chanOf(p.done); vc != nil && vc.closed {
+				c.timedOut = p.timedOut
+				c.cancel("cancel(parent already cancelled)@" + caller())
+			}
+		}
 	}
-	return c, func() {
-		if s == nil || s.aborting {
-			return
+	return c, func() { c.cancel("cancel@" + caller()) }
+}
+
+// cancel closes the context's Done channel (idempotent) and then those of the contexts derived from it.
+func (c *vctx) cancel(label string) {
+	if s == nil || s.aborting {
+		return
+	}
+	if vc := chanOf(c.done); vc == nil || !vc.closed {
+		block(&op{kind: opClose, ch: chanOf(c.done), label: label})
+	}
+	for _, ch := range c.children {
+		if vc := chanOf(ch.done); vc != nil && vc.closed {
+			continue
 		}
-		if vc := chanOf(c.done); vc != nil && vc.closed {
-			return // idempotent
-		}
-		o := &op{kind: opClose, ch: chanOf(c.done), label: "cancel@" + caller()}
-		block(o)
+		ch.timedOut = c.timedOut
+		ch.cancel(label)
 	}
 }
 
@@ -1089,6 +1333,131 @@ func After(d time.Duration) <-chan time.Time {
 		Out[time.Time](ch).Send(Now())
 	})
 	return ch
+}
+
+// Timer / Ticker / AfterFunc / Tick: pseudo-threads on the virtual clock, like After.
+type Timer struct {
+	C      <-chan time.Time
+	c      chan time.Time
+	gen    int // Stop / Reset outdate the sleeping pseudo-thread of an earlier generation
+	active bool
+	f      func()
+	label  string
+}
+
+func newTimer(d time.Duration, f func(), label string) *Timer {
+	t := &Timer{f: f, label: label}
+	t.c = make(chan time.Time, 1)
+	t.C = t.c
+	if s != nil && !s.aborting {
+		Name(t.c, label)
+		t.start(d)
+	}
+	return t
+}
+
+func NewTimer(d time.Duration) *Timer           { return newTimer(d, nil, "timer@"+caller()) }
+func AfterFunc(d time.Duration, f func()) *Timer { return newTimer(d, f, "afterfunc@"+caller()) }
+
+func (t *Timer) start(d time.Duration) {
+	t.gen++
+	g := t.gen
+	t.active = true
+	Go("timer", func() {
+		Daemon()
+		SleepL(d, t.label)
+		if t.gen != g || !t.active {
+			return
+		}
+		t.active = false
+		if t.f != nil {
+			t.f()
+			return
+		}
+		Select(true, CaseSend[time.Time](t.c, Now()))
+	})
+}
+
+func (t *Timer) Stop() bool {
+	was := t.active
+	t.active = false
+	t.gen++
+	return was
+}
+
+func (t *Timer) Reset(d time.Duration) bool {
+	was := t.active
+	if s != nil && !s.aborting {
+		t.start(d)
+	}
+	return was
+}
+
+type Ticker struct {
+	C       <-chan time.Time
+	c       chan time.Time
+	gen     int
+	stopped bool
+	label   string
+}
+
+func NewTicker(d time.Duration) *Ticker {
+	k := &Ticker{label: "ticker@" + caller()}
+	k.c = make(chan time.Time, 1)
+	k.C = k.c
+	if s != nil && !s.aborting {
+		Name(k.c, k.label)
+		k.start(d)
+	}
+	return k
+}
+
+func (k *Ticker) start(d time.Duration) {
+	k.gen++
+	g := k.gen
+	k.stopped = false
+	Go("ticker", func() {
+		Daemon()
+		s.cur.ticker = true // ticks alone never keep an execution alive (see loop)
+		for {
+			SleepL(d, k.label)
+			if k.gen != g || k.stopped {
+				return
+			}
+			Select(true, CaseSend[time.Time](k.c, Now()))
+		}
+	})
+}
+
+func (k *Ticker) Stop() { k.stopped = true; k.gen++ }
+func (k *Ticker) Reset(d time.Duration) {
+	if s != nil && !s.aborting {
+		k.start(d)
+	}
+}
+
+func Tick(d time.Duration) <-chan time.Time { return NewTicker(d).C }
+
+// WithTimeout / WithDeadline: WithCancel plus a timer pseudo-thread that cancels.
+func WithTimeout(parent context.Context, d time.Duration) (context.Context, context.CancelFunc) {
+	ctx, cancel := WithCancel(parent)
+	if s != nil && !s.aborting {
+		lbl := "ctx-timeout@" + caller()
+		c := ctx.(*vctx)
+		Go("timer", func() {
+			Daemon()
+			SleepL(d, lbl)
+			if vc := chanOf(c.done); vc != nil && !vc.closed {
+				c.timedOut = true
+				c.cancel(lbl)
+			}
+		})
+	}
+	return ctx, cancel
+}
+
+func WithDeadline(parent context.Context, t time.Time) (context.Context, context.CancelFunc) {
+	return WithTimeout(parent, Until(t))
 }
 
 // ---- map iteration order (T11)
